@@ -24,6 +24,7 @@ pub enum Profile {
     Script,
     Corrupt,
     Limits,
+    ReadOnly,
 }
 
 impl Profile {
@@ -41,6 +42,7 @@ impl Profile {
             Profile::Script => "script",
             Profile::Corrupt => "corrupt",
             Profile::Limits => "limits",
+            Profile::ReadOnly => "readonly",
         }
     }
     pub fn parse(s: &str) -> Option<Profile> {
@@ -57,6 +59,7 @@ impl Profile {
             "script" => Profile::Script,
             "corrupt" => Profile::Corrupt,
             "limits" => Profile::Limits,
+            "readonly" => Profile::ReadOnly,
             _ => return None,
         })
     }
@@ -1060,6 +1063,59 @@ impl Gen {
         }
     }
 
+    // ------------------------------------------------------------ read-only sessions
+
+    fn read_only_session(&mut self) {
+        let n = 2 + self.rng.usize_below(14);
+        for _ in 0..n {
+            let op = match self.rng.below(10) {
+                0..=3 => self.op_select(),
+                4 => {
+                    // selects that fail are read operations too
+                    let ts = self.user_plain_tables();
+                    Some(Op::Select {
+                        table: if ts.is_empty() || self.rng.chance(300) { "NoSuchTable".into() } else { self.rng.pick(&ts).clone() },
+                        cols: vec!["NoSuchColumn".into()],
+                        cond: None,
+                    })
+                }
+                5..=6 => self.op_rstream(true),
+                7 => {
+                    let mut ts: Vec<String> = self.model.tables.keys().cloned().collect();
+                    ts.push("Missing".into());
+                    let l = self.rng.pick(&ts).clone();
+                    let r = self.rng.pick(&ts).clone();
+                    if l == r {
+                        None
+                    } else {
+                        let col = |g: &mut Gen, t: &str| -> String {
+                            match g.model.tables.get(t) {
+                                Some(tm) if g.rng.chance(900) => tm.cols[g.rng.usize_below(tm.cols.len())].name.clone(),
+                                _ => "Nope".into(),
+                            }
+                        };
+                        let lcol = col(self, &l);
+                        let rcol = col(self, &r);
+                        Some(Op::Join { left: l, right: r, lcol, rcol, outer: self.rng.chance(500) })
+                    }
+                }
+                8 => Some(Op::Observe),
+                _ => {
+                    if self.rng.chance(300) {
+                        Some(Op::Flush)
+                    } else {
+                        Some(Op::Observe)
+                    }
+                }
+            };
+            if let Some(op) = op {
+                self.push(op);
+            }
+        }
+        let r = self.op_restart();
+        self.push(r);
+    }
+
     // ------------------------------------------------------------ choreographies
 
     /// save; a statement that only bumps reference counts; save; release one
@@ -1243,7 +1299,7 @@ impl Gen {
 fn swarm_weights(p: Profile, rng: &mut Prng) -> [u32; NKINDS] {
     let mut w = [0u32; NKINDS];
     let base: [(usize, u32); 16] = match p {
-        Profile::Clean | Profile::Benign | Profile::Crash | Profile::Foreign | Profile::Script | Profile::Corrupt | Profile::Limits => [
+        Profile::Clean | Profile::Benign | Profile::Crash | Profile::Foreign | Profile::Script | Profile::Corrupt | Profile::Limits | Profile::ReadOnly => [
             (K_CREATE, 10), (K_DROP, 4), (K_INSERT, 22), (K_UPDATE, 12), (K_DELETE, 10), (K_SELECT, 8), (K_WSTREAM, 6), (K_RSTREAM, 2),
             (K_RMSTREAM, 2), (K_SUMMARY, 6), (K_DBCP, 2), (K_FLUSH, 4), (K_RESTART, 8), (K_RMSIG, 1), (K_INVALID, 0), (K_OBSERVE, 3),
         ],
@@ -1487,7 +1543,7 @@ pub fn generate(property: &str, profile: Profile, seed: u64, run: u64) -> Trace 
     };
     let ptype = *rng.pick(&[PType::Installer, PType::Installer, PType::Patch, PType::Transform]);
     let big_script = profile == Profile::Script && rng.chance(200);
-    let (init, model) = if profile == Profile::Foreign || (profile == Profile::Corrupt && rng.chance(300)) || big_script {
+    let (init, model) = if profile == Profile::Foreign || (profile == Profile::Corrupt && rng.chance(300)) || (profile == Profile::ReadOnly && rng.chance(300)) || big_script {
         let spec = gen_foreign_spec(&mut rng, big_script);
         cp_set = vec![if spec.codepage == 0 { 65001 } else { spec.codepage }];
         alphabet = if spec.codepage == 0 { Vec::new() } else { crate::cp::common_chars(&cp_set) };
@@ -1518,6 +1574,7 @@ pub fn generate(property: &str, profile: Profile, seed: u64, run: u64) -> Trace 
     };
     let n_ops = match profile {
         Profile::Script => 3 + rng.usize_below(6),
+        Profile::ReadOnly => 2 + rng.usize_below(14),
         Profile::Corrupt => 2 + rng.usize_below(10),
         _ => 3 + rng.usize_below(38),
     };
@@ -1529,6 +1586,13 @@ pub fn generate(property: &str, profile: Profile, seed: u64, run: u64) -> Trace 
     }
     for _ in 0..n_ops {
         g.one_op();
+    }
+    if profile == Profile::ReadOnly {
+        let r = g.op_restart();
+        g.push(r);
+        for _ in 0..1 + g.rng.below(3) {
+            g.read_only_session();
+        }
     }
     match profile {
         Profile::Corrupt => {
